@@ -288,8 +288,8 @@ class _ExtraLoop(heap.MapLoopSpec):
 
 
 class _ExtraMapLoop(heap.MapLoop):
-    def havoc(self, env, names):
-        out = super().havoc(env, names)
+    def havoc(self, env, names, state=()):
+        out = super().havoc(env, names, state)
         self.spec.tr.dom = ctx().fresh('tracked', heap.AKB)        # heap frame of the loop: the tracked list
         return out
 
